@@ -168,10 +168,17 @@ package keeper
 //@ ensures [reads_only] nothing_written()
 
 //@ func (k Keeper).PayDisputeFee(ctx, proposer, fee, fromBond, hashId) (err)
-//@ trusted
-//@ modifies reporter.*, staking.*, bank.bal
+//@ requires [fee_positive] fee.Amount > 0
+//@ requires [validators_have_delegator_shares] forall v bytes :: has(staking.validators, v) ==> staking.validators[v].DelegatorShares > 0
+//@ modifies reporter.FeePaidFromStake, staking.*, bank.bal
+//@ ensures [paid_from_the_account_moves_exactly_the_fee_into_escrow] err == nil && !fromBond && acc(proposer) != module("dispute") ==> bank.bal[acc(proposer)] == old(bank.bal[acc(proposer)]) - fee.Amount && bank.bal[module("dispute")] == old(bank.bal[module("dispute")]) + fee.Amount
+//@ ensures [nobody_but_the_payer_pays] forall a addr :: a != acc(proposer) && a != module("dispute") && a != module("bonded_tokens_pool") ==> bank.bal[a] == old(bank.bal[a])
+//@ ensures [paid_from_stake_leaves_the_payers_balance_alone] fromBond && acc(proposer) != module("dispute") && acc(proposer) != module("bonded_tokens_pool") ==> bank.bal[acc(proposer)] == old(bank.bal[acc(proposer)])
+//@ ensures [a_failed_payment_from_the_account_moves_nothing] err != nil && !fromBond ==> bank.bal == old(bank.bal)
 
 //@ func (k Keeper).AddDisputeRound(ctx, sender, dispute, msg) (err)
+//@ requires [validators_have_delegator_shares] forall v bytes :: has(staking.validators, v) ==> staking.validators[v].DelegatorShares > 0
+//@ requires [slash_amount_at_least_twenty_loya] dispute.SlashAmount >= 20
 //@ requires [round_counter_fits_int64] dispute.DisputeRound < 9223372036854775808
 //@ modifies dispute.Disputes, dispute.Votes, reporter.*, staking.*, bank.bal, dispute.DisputeFeePayer, A_*
 //@ ensures [only_an_open_unresolved_unexpired_dispute_gets_a_new_round] err == nil ==> dispute.DisputeStatus == types.Unresolved && dispute.Open && dispute.DisputeEndTime >= blocktime(ctx)
@@ -195,6 +202,7 @@ package keeper
 //@ modifies oracle.Aggregates, reporter.*, staking.*, bank.bal, H_*, A_*
 
 //@ func (k msgServer).ProposeDispute(goCtx, msg) (resp, err)
+//@ requires [validators_have_delegator_shares] forall v bytes :: has(staking.validators, v) ==> staking.validators[v].DelegatorShares > 0
 //@ requires [msg_present] msg != nil && msg.Report != nil
 //@ requires [stated_power_fits_int64] msg.Report.Power < 9223372036854775808
 //@ modifies dispute.*, oracle.Aggregates, reporter.*, staking.*, bank.bal, bank.supply, H_*, A_*
@@ -204,6 +212,7 @@ package keeper
 //@ define paid(i, a) = has(dispute.DisputeFeePayer, pair(i, a)) ? dispute.DisputeFeePayer[pair(i, a)].Amount : 0
 
 //@ func (k msgServer).AddFeeToDispute(goCtx, msg) (resp, err)
+//@ requires [validators_have_delegator_shares] forall v bytes :: has(staking.validators, v) ==> staking.validators[v].DelegatorShares > 0
 //@ requires [msg_present] msg != nil
 //@ requires [stored_evidence_is_a_submitted_report] forall i int :: has(dispute.Disputes, i) ==> submitted(dispute.Disputes[i].InitialEvidence) && bech32ok(dispute.Disputes[i].InitialEvidence.Reporter)
 //@ requires [disputes_are_stored_under_their_id] forall i int :: has(dispute.Disputes, i) ==> dispute.Disputes[i].DisputeId == i
@@ -240,3 +249,13 @@ package keeper
 //@ ensures [weights_are_taken_as_of_the_disputes_block] err == nil ==> arg(SetVoterTips, blockNumber) == old(dispute.Disputes[msg.Id].BlockNumber) && arg(SetVoterReporterStake, blockNumber) == old(dispute.Disputes[msg.Id].BlockNumber) && arg(SetTokenholderVote, blockNumber) == old(dispute.Disputes[msg.Id].BlockNumber)
 //@ ensures [the_vote_is_recorded_for_the_voter_with_its_choice] err == nil ==> has(dispute.Voter, pair(msg.Id, accbytes(msg.Voter))) && dispute.Voter[pair(msg.Id, accbytes(msg.Voter))].Vote == msg.Vote
 //@ ensures [a_voter_without_any_weight_is_rejected] err == nil ==> dispute.Voter[pair(msg.Id, accbytes(msg.Voter))].VoterPower != 0
+
+// GetDisputeByReporter walks the by-reporter index downwards (prefixed range over a Multi index, not modelled): trusted read.
+//@ func (k Keeper).GetDisputeByReporter(ctx, r, c) (dispute, err)
+//@ trusted
+//@ ensures [reads_only] nothing_written()
+
+// HashId hashes the protobuf encoding of (report, category): a pure function of its arguments (sha-256 and the codec are not modelled).
+//@ func (k Keeper).HashId(ctx, r, c) (h)
+//@ trusted
+//@ ensures [reads_only] nothing_written()
